@@ -17,3 +17,15 @@ func verifEntryKind(e *LogEntry) string                 { return "" }
 func (c *changeCache) verifSkipped() [][2]uint64        { return nil }
 func (c *changeCache) verifState() []any                { return nil }
 func (c *changeCache) verifPre() [4]uint64              { return [4]uint64{} }
+
+// H3 (revision cache)
+func verifAtomLock()                                                             {}
+func verifAtomUnlock()                                                           {}
+func verifPtr(v *revCacheValue) string                                           { return "" }
+func verifBytes(v *revCacheValue) int64                                          { return 0 }
+func verifCV(v *Version) string                                                  { return "" }
+func verifRCCall(rc *LRURevisionCache, op string, docID string, ver string)      {}
+func verifRCRet(rc *LRURevisionCache)                                            {}
+func verifRCLocked(rc *LRURevisionCache, ev string, v *revCacheValue, kv ...any) {}
+func verifRCAtomic(rc *LRURevisionCache, ev string, v *revCacheValue, kv ...any) {}
+func verifVal(v *revCacheValue, ev string, kv ...any)                            {}
